@@ -97,6 +97,14 @@ def rebuild(real, model):
     return type(real)(real.dom, real.cod, boxes, list(model[2]))
 
 
+def _differ(a, b):
+    """a != b, falling back on reprs where == is not a boolean (numpy payloads)."""
+    try:
+        return bool(a != b)
+    except ValueError:
+        return repr(a) != repr(b)
+
+
 def public_scan_problem(d):
     """Caller-side well-typedness check through the public API only
     (dom, cod, boxes, offsets, layers).  None if well-typed."""
@@ -119,7 +127,7 @@ def public_scan_problem(d):
         if scan[off:off + n] != bdom:
             return "box %d does not find its domain at its offset" % k
         left, lbox, right = layers[k]
-        if lbox != box:
+        if lbox is not box and _differ(lbox, box):
             return "layer %d holds another box" % k
         if list(left.objects) != scan[:off] or list(right.objects) != scan[off + n:]:
             return "layer %d side wires disagree with the scan" % k
